@@ -28,6 +28,9 @@ type resetSpec struct {
 	// EagerReopen: the next cycle starts as soon as the identifier is free on both sides (both
 	// readers saw end-of-stream), without waiting for the responses to the reset requests.
 	EagerReopen bool
+	// SuspendTimers: after the handshake every timer expiry may be postponed past the next
+	// packet delivery (a schedule deviation)
+	SuspendTimers bool
 	// KillResetReq: the first n packets from A that carry an outgoing reset request are lost
 	KillResetReq int
 	// DeadlineReader: B's reader works with short read deadlines and idles with an expired
@@ -75,6 +78,9 @@ func resetScenario(spec *resetSpec) *Scenario {
 				return
 			}
 			m.W.faultsOn = true
+			if spec.SuspendTimers {
+				m.S.SuspendTimers = true
+			}
 			for cycle := 0; cycle < spec.Cycles; cycle++ {
 				if !resetCycle(m, spec, cycle) {
 					break
@@ -369,6 +375,15 @@ func propC14(j *Job) {
 							sp := *spec
 							sp.EagerReopen, sp.MsgGap, sp.Cycles = true, 1200*time.Millisecond, 3
 							j.Explore(fmt.Sprintf("R/%s/m%d/U%v/eager", mode.Name, len(sizes), unordered), resetScenario(&sp), Budget{K: k}, nil)
+							if j.capped() {
+								return
+							}
+						}
+						if j.Thorough() && !late && si == 1 {
+							// timer expiries against packet arrivals: one fault and one postponed timer
+							sp := *spec
+							sp.SuspendTimers = true
+							j.Explore(fmt.Sprintf("R/%s/m%d/U%v/two%v/suspend", mode.Name, len(sizes), unordered, two), resetScenario(&sp), Budget{K: 1, D: 1}, nil)
 							if j.capped() {
 								return
 							}
